@@ -22,7 +22,8 @@ import numpy as np
 from common import coqc_many, parse_evals, parse_zlist, coq_string, VERIF
 
 THEOREMS = ["C06_key_encoding_injective", "C06_refines", "C06_last_write_wins", "C06_other_keys_untouched",
-            "C06_never_written_raises", "C06_rejected_update_keeps_old", "C06_writes_under_root"]
+            "C06_never_written_raises", "C06_rejected_update_keeps_old", "C06_writes_under_root",
+            "C06_flatten_injective", "C06_add_routes_to_own_family", "C06_refuted_unfixed"]
 
 # ---------------------------------------------------------------------------------------------
 # families: the kinds of the dictionary levels, the Coq constructors, the functions
@@ -593,7 +594,7 @@ class Gen:
         r = self.rng
         u = self.universe()
         mixed = r.random() < 0.3
-        n = r.randint(4, 14 if self.quick else 40)
+        n = r.randint(4, 14 if self.quick else 30)
         return {"universe": u, "calls": [self.call(u, mixed) for _ in range(n)]}
 
 
@@ -925,11 +926,20 @@ def run(ctx):
         hh["origin"] = os.path.basename(p)
         hist.append(hh)
     n_corpus = len(hist)
-    n_gen = 200 if quick else 3000
+    n_gen = 170 if quick else 1500
+    if ctx.replay:
+        # bin/check C06 quick --replay file : only the history stored in the replay
+        rp = json.load(open(ctx.replay))["replay"]
+        hh = rp.get("history")
+        if hh:
+            for c in hh["calls"]:
+                for lf in call_leaves(c):
+                    lf[3].pop("id", None)
+            hist, n_corpus, n_gen = [dict(hh, origin=os.path.basename(ctx.replay))], 0, 0
     g = Gen(rng, quick)
     for _ in range(n_gen):
         hist.append(g.history())
-    cap = 60 if quick else 90
+    cap = 50 if quick else 70
 
     cases, all_fails, dist = [], [], []
     for hi, h in enumerate(hist):
@@ -937,6 +947,8 @@ def run(ctx):
         trace, files, fails = run_history(w, h, queries)
         cases.append((hi, h, queries, trace, files))
         dist.append(classify(h))
+        if hi and hi % 250 == 0:
+            ctx.log("  ... %d histories executed" % hi)
         for f in fails:
             f["history_index"] = hi
             f["history"] = {"universe": h["universe"], "calls": h["calls"][:f.get("call_index", len(h["calls"]) - 1) + 1]}
@@ -1001,14 +1013,18 @@ def run(ctx):
             style_tot[k] = style_tot.get(k, 0) + v
     n_calls = sum(d["calls"] for d in dist)
     rejected = sum(1 for _, _, _, t, _ in cases for oc, _ in t if oc == 1)
-    nontrivial = sum(1 for d in dist if d["overwrites"] and (d["alias"] or d["rejectable"] or d["default_root_calls"]))
+    def shape_of(h):
+        # a history without the leaf seeds / ids: two histories are distinct when they differ in calls, keys or validity
+        return json.dumps([{k: v for k, v in c.items()} for c in h["calls"]], sort_keys=True, default=str)
+    nontrivial = len({shape_of(h) for h, d in zip(hist, dist)
+                      if d["overwrites"] and (d["alias"] or d["rejectable"] or d["default_root_calls"])})
     ctx.coverage.update({
         "evaluations": len(hist),
         "distinct_nontrivial": nontrivial,
         "rule": "one case = one history (4-%d calls) executed on the real functions in a fresh repository, every key of the history's "
                 "universe (%d at most: keys given, alias spellings, sibling families, neighbouring charges/species/roots, never-written keys) "
                 "read back after every call; non-trivial = at least one key written twice and at least one of: alias spelling of a "
-                "transition, rejectable call, call without repository_path" % (14 if quick else 40, cap),
+                "transition, rejectable call, call without repository_path" % (14 if quick else 30, cap),
         "distribution": {"histories": len(hist), "corpus": n_corpus, "calls": n_calls, "calls_by_style": style_tot,
                          "calls_by_family_or_front_end": fam_tot, "calls_rejected_by_implementation": rejected,
                          "calls_with_invalid_leaf": sum(d["rejectable"] for d in dist),
